@@ -24,17 +24,17 @@ def _trace(technique, text, ref):
 
 CLAIMED.update({
     "C01": _trace("TLA+ semantics of segments/selectors (Eval.tla) evaluated by TLC on recorded find() calls (trace validation)",
-                  "Every recorded find() of a filter-free query is re-computed by TLC from the query TEXT (Syntax.tla parser) and the document (Eval.tla) and must be equal node by node (location, order, duplicates), value-at-location and normalized path included. Inputs: all trees of height<=2/width<=2 x a fixed battery, plus seeded random queries/documents (nasty names, all spellings).", "4 (C01)"),
+                  "Every recorded find() of a filter-free query is re-computed by TLC from the query TEXT (Syntax.tla parser) and the document (Eval.tla) and must be equal node by node (location, order, duplicates), value-at-location and normalized path included. Inputs: all trees of height<=2/width<=2 x a fixed battery, plus seeded random queries/documents (nasty names, all spellings), plus a wrong-kind battery (index / slice selectors on objects whose names read like indices, digit names on arrays, every selector on strings).", "4 (C01)"),
     "C02": _trace("TLA+ filter semantics (Eval!Test) evaluated by TLC on recorded find() calls (trace validation)",
                   "Filter queries built from ~64 atoms (existence tests on '@'/'$' queries, comparisons, calls, nested filters to depth 3) under ! && || and parentheses, on arrays/objects with 21 child kinds (0,false,'',null,[],{},...) and on scalars, plus seeded random filter queries; every result validated by TLC.", "4 (C02)"),
     "C03": _trace("TLA+ recursive-descent transcription of the RFC 9535 ABNF + typing (Syntax/Typing.tla); compile() outcomes trace-validated by TLC",
-                  "TLC parses every candidate text itself and decides Valid; a valid text that compile() rejects is a violation. Candidates: seeds, repository test queries, seeded generator output with every optional lexical form (blank space at every S, both quotes, every escape form, shorthand/bracket, number spellings, non-BMP names); every sentence of the ABNF derivation machine (Deriv.tla, T3); the valid ones among all unit texts enumerated by MC_Parser.tla, where TLC also checks T15 (the implementation-shaped lexer/stream/parser model accepts them and builds the query RFC 9535 assigns).", "4 (C03)"),
+                  "TLC parses every candidate text itself and decides Valid; a valid text that compile() rejects is a violation. Candidates: seeds, repository test queries, seeded generator output with every optional lexical form (blank space at every S, both quotes, every escape form, shorthand/bracket, number spellings, non-BMP names); every sentence of the ABNF derivation machine (Deriv.tla, T3); the valid ones among all unit texts enumerated by MC_Parser.tla, where TLC also checks T15 (the implementation-shaped lexer/stream/parser model accepts them and builds the query RFC 9535 assigns). Every code point from U+0080 stands as the first and as a later character of a member-name shorthand (six query shapes), range-compressed and judged by TLC with a quantifier (Trace!VShRange).", "4 (C03)"),
     "C04": _trace("TLA+ parser (Syntax.tla) as the membership oracle; compile() outcomes on enumerated short strings, lexeme sequences and single-edit neighbours trace-validated by TLC",
                   "All strings '$'+w over a 27-symbol alphabet (|w|<=3 quick / 4 thorough), seeded lexeme sequences, single-edit neighbours of valid queries, every text prefix u1..un suffix over six families of token-like units enumerated by TLC (MC_Parser.tla, n<=3 quick / 5 thorough; T15 checked on the way); a text outside the grammar that compile() accepts is a violation.", "4 (C04)"),
     "C05": _trace("TLA+ well-typedness and integer-range judgement (Typing.tla); compile() on fresh environments with probe functions of every signature, trace-validated by TLC",
                   "All 39 signatures over {V,L,N}^n->type (n<=2) x argument shapes x syntactic positions, unknown names, wrong arity, integers at lo-1..hi+1 for five configured ranges, registries installed by mutation and by assignment, the built-in functions over all unit texts of the 'calls' family of MC_Parser.tla; compile() must agree with Typing.tla and no function body may run during compile().", "4 (C05)"),
     "C06": _trace("TLA+ comparison table (JsonVal!Cmp) model-checked for its algebraic shape (T5) and used by TLC to validate recorded comparisons",
-                  "Ordered pairs over 50 comparands of every kind (incl. bool-vs-number leaves at depth, permuted members, non-BMP strings, nothing) x 6 operators x every producer of each side, and all comparands as siblings under one container with the child itself as a comparand; T5 (equivalence, strict order, derived operators) checked exhaustively on the spec's universe.", "4 (C06)"),
+                  "Ordered pairs over 50 comparands of every kind (incl. bool-vs-number leaves at depth, permuted members, non-BMP strings, nothing) x 6 operators x every producer of each side, and all comparands as siblings under one container with the child itself as a comparand; T5 (equivalence, strict order, derived operators) checked exhaustively on the spec's universe. A literal against the document number a JSON decoder makes of the SAME text (20 spellings x 2 signs x 6 operators, Trace!VSameText): pinned also beyond 15 digits, where the value model abstains.", "4 (C06)"),
     "C10": _trace("TLA+ function-call semantics (Eval!ArgFor/Builtin); probe functions log received arguments; records trace-validated by TLC",
                   "Built-ins over 20 child kinds; probes of all 39 signatures log what they receive per declared parameter type; TLC compares logged argument lists (as sets) with Eval!ArgFor and the selection with the declared result type's use.", "4 (C10)"),
     "C11": _trace("TLA+ I-Regexp grammar and set-of-end-positions matcher (IRegexp.tla), T13 model-checked; match()/search() records trace-validated by TLC",
@@ -42,14 +42,14 @@ CLAIMED.update({
     "C12": _trace("TLA+ parser + normal form (Canon.tla); str() round-trip records trace-validated by TLC",
                   "For each compiled query: str() text must be Valid, have the same normal form as the original (or select the same nodes on a witness pool), be a fixpoint of str(compile(.)), with canonical string literals, and the compiled serialisation must behave like the compiled original on the witness documents.", "4 (C12)"),
     "C13": _trace("outcome-class validation of compile()/find() records by TLC (totality clause), inputs from the syntax corpora plus long/deep inputs",
-                  "Valid, almost valid and garbage texts incl. random Unicode and 1,024-character / nesting-32 inputs; every query that compiles (ill-typed ones that should not have included) evaluated on every JSON kind; outcome must be return or a JSONPathError, error string producible, within a wall-clock guard.", "4 (C13)"),
+                  "Valid, almost valid and garbage texts incl. random Unicode and 1,024-character / nesting-32 inputs; every query that compiles (ill-typed ones that should not have included) evaluated on every JSON kind; outcome must be return or a JSONPathError, error string producible, within a wall-clock guard. Long inputs (malformed literals after long runs among them) are compiled in a child process that can be killed; user functions with every arity; integer ranges of +-2^70; literals with huge exponents; strings with unpaired surrogates from a JSON decoder.", "4 (C13)"),
     "C19": _trace("TLA+ Position/Offset (ErrorPos.tla, T14 model-checked); recorded (text, offset, printed line/column) trace-validated by TLC",
                   "Every rejection over multi-line corpora (LF/CR/CRLF injected at blank-space positions): offset within the text and printed line/column equal to Position(text, offset).", "4 (C19)"),
 })
 
 CLAIMED.update({
     "C08": _trace("TLA+ normalized-path grammar (NormPath.tla) and Locate; re-query records and range-compressed per-code-point records trace-validated by TLC",
-                  "Nodes from seeded queries on documents with nasty member names: location walked from the root (same object), path() = NormalizedPath(location), path re-queried to exactly that node, values()/paths()/items() agree; every code point U+0000..U+10FFFF as a member name (sampled in quick, all in thorough), grouped into uniform ranges that TLC checks with a quantifier over the range.", "4 (C08)"),
+                  "Nodes from seeded queries on documents with nasty member names: location walked from the root (same object), path() = NormalizedPath(location), path re-queried to exactly that node, values()/paths()/items() agree; every code point U+0000..U+10FFFF as a member name (sampled in quick, all in thorough), grouped into uniform ranges that TLC checks with a quantifier over the range. Systematic floors: every nasty name once; normalised / clamped indices and slices on every small length; compiled descendant queries with a past; every code point alone, embedded, last and first in a name; nodes 1,200 / 3,000 levels down asked first.", "4 (C08)"),
     "C09": _trace("TLA+ string-literal decoder as a character-stepping state machine (StringLit.tla) model-checked against the functional decoder (T7a-c); every machine state replayed into compile(); per-code-point ranges and surrogate boundary literals trace-validated by TLC",
                   "TLC explores the decoder machine over a 29-symbol alphabet (length 3/4), a 13-symbol escape alphabet (length 4/6) and by simulation over the hex/surrogate alphabet (length 13); each state (body, expected decoded string or reject) is replayed: accept/reject and the decoded name, observed through name selection and string comparison. Every code point raw / \\uXXXX lower / upper / surrogate pair in both quote styles, range-compressed.", "4 (C09)"),
     "C14": dict(technique="TLA+ state machine of the public API (System.tla): TLC enumerates all histories to a depth (abstract state + last operation) and random walks; each history replayed step by step on the real objects",
